@@ -26,6 +26,7 @@
  R10 profile order: impairment profiles keep their listing order (first of a kind = default).
  R11 ROADM input  : upstream walk sums losses; upstream ROADM target read for the degree the walk came from.
  R12 design order   : fibres are split before ROADM boosters / preamps are inserted (degree names) - shared with C08.
+ R13 explicit profile: a named impairment id is looked up by id alone; the kind-based first profile only without id.
 """
 import ast
 
@@ -479,6 +480,39 @@ def r12_design_order(ctx):
     _r(proxy(ctx, 'R12'))
 
 
+
+def r13_explicit_profile(ctx):
+    """R13: an impairment profile NAMED for a crossing (per-degree impairment id) is the one applied: set_roadm_paths looks an explicit
+    id up by id alone (membership + subscript, unknown id -> error) - whatever kind the inferred path is - and falls back on the
+    first listed profile of the path kind only when no id was given"""
+    from .common import holds_at
+    repo = ctx.repo
+    f = repo.method(roadm(repo), 'set_roadm_paths')
+    pid = 'impairment_id' if 'impairment_id' in f.params else f.params[-1]
+    table = 'self.roadm_path_impairments'
+    by_id = [n for n in walk_no_nested(f.node) if isinstance(n, ast.Assign) and ast.unparse(n.value) == f'{table}[{pid}]']
+    ok = len(by_id) == 1
+    det = ''
+    if ok:
+        h = holds_at(by_id[0])
+        det = str(h)
+        ok = f'{pid} in {table}' in h and not any('path_type' in c for c in h) and (f'{pid} is not None' in h)
+        var = ast.unparse(by_id[0].targets[0])
+        ctor = calls_to(f, {'RoadmPath'})
+        ok = ok and len(ctor) == 1 and ast.unparse(kwarg(ctor[0], 'impairment')) == var
+    ctx.check('R13.explicit-profile', f'{site(f)} by id', ok, key(f, 'by-id'),
+              'a profile named by id is not bound by looking that id up (id given and present -> that profile), independently of the '
+              'path kind: an add / drop profile named for a crossing would be ignored and the crossing get no path loss', det)
+    loops = [n for n in walk_no_nested(f.node) if isinstance(n, ast.For) and table in ast.unparse(n.iter)]
+    ok = len(loops) == 1 and f'{pid} is None' in holds_at(loops[0])
+    ctx.check('R13.explicit-profile', f'{site(f)} fall-back', ok, key(f, 'fallback'),
+              'the first profile of the path kind is not used exactly when no id was given')
+    unknown = [n for n in walk_no_nested(f.node) if isinstance(n, ast.Raise) and f'{pid} not in {table}' in holds_at(n)]
+    ctx.check('R13.explicit-profile', f'{site(f)} unknown id', len(unknown) == 1, key(f, 'unknown'),
+              'an id that the library does not define is not rejected')
+    ctx.need('R13.explicit-profile', 3)
+
+
 from ..memo import rule_for as _memo_rule
 
 RULES_MEMO = ('Rm.memo', _memo_rule('C06', 'the equalisation computed for another spectrum or target would be applied'))
@@ -488,4 +522,4 @@ from ..presence import rule_for as _presence_rule
 
 RULES_PRESENCE = ('Rp.presence', _presence_rule('C06', 'a ROADM target of exactly 0 dBm would be ignored and another target applied'))
 
-RULES = [('R6.stateless', r6_stateless), ('R1.formula', r1_formula), ('R2.policy', r2_policy), ('R4.one-policy', r4_one_policy), ('R5.design', r5_design), RULES_MEMO, RULES_PRESENCE, ('R7.channel-order', r7_channel_order), ('Rk.field-key', rk_field_key), ('Rx.export-keys', rx_export_keys), ('Re.for-each', re_foreach), ('R8.mode-copy', r_mode_copy), ('Rn.arg-roles', rn_arg_roles), ('R9.path-lookup', r_path_lookup), ('R10.profile-order', r10_profile_order), ('R11.roadm-input', r_roadm_input), ('R12.design-order', r12_design_order)]
+RULES = [('R6.stateless', r6_stateless), ('R1.formula', r1_formula), ('R2.policy', r2_policy), ('R4.one-policy', r4_one_policy), ('R5.design', r5_design), RULES_MEMO, RULES_PRESENCE, ('R7.channel-order', r7_channel_order), ('Rk.field-key', rk_field_key), ('Rx.export-keys', rx_export_keys), ('Re.for-each', re_foreach), ('R8.mode-copy', r_mode_copy), ('Rn.arg-roles', rn_arg_roles), ('R9.path-lookup', r_path_lookup), ('R10.profile-order', r10_profile_order), ('R11.roadm-input', r_roadm_input), ('R12.design-order', r12_design_order), ('R13.explicit-profile', r13_explicit_profile)]
